@@ -407,10 +407,12 @@ def r2_mode_dispatch(P, rep, ctx):
     effs = ce.calls("self._new_container(___)", "__.append(___)")
     rep.check(bool(guards) and ce.all_hit_before(effs, nodes=guards), "C03.R2", ce.fi.qual, "mode 'r' cannot create patches", ce.fi.loc(), construct="create_patch not-ro", message="create_patch does not refuse records opened 'r'")
     md = F(ctx, P.func(f"{REC}.mode"))
-    rets = [(i, v) for i, v in md.returns() if v is not None]
-    ap = md.tests("self._allow_patching")
-    ok = bool(rets) and (all(md.x(v) in ("'r+' if self._allow_patching else 'r'", "'r' if not self._allow_patching else 'r+'") for i, v in rets)
-                         or (bool(ap) and all((md.x(v) == "'r+'" and md.hit_before(i, edges=ap)) or (md.x(v) == "'r'" and md.hit_before(i, edges=md.neg(ap))) for i, v in rets) and {md.x(v) for i, v in rets} == {"'r+'", "'r'"}))
+    # decision table, however the two answers are spelled (conditional expression, if/else, through a local)
+    try:
+        bad = md.decision_mismatches(lambda d: "'r+'" if d.get("self._allow_patching") is True else "'r'" if d.get("self._allow_patching") is False else None)
+        ok = not bad and md.undecided_paths == 0 and len(md.value_paths()) >= 2
+    except ValueError:
+        ok = False
     rep.check(ok, "C03.R2", md.fi.qual, "reported mode reflects _allow_patching", md.fi.loc(), construct="mode property", message="mode property does not reflect _allow_patching")
     cr = F(ctx, P.func(f"{REC}._create"))
     trunc = cr.tests("truncate")
